@@ -244,6 +244,10 @@ class HFile(object):
         return self.seq
 
 
+class AnyExc(Exception):
+    """stands for 'some exception of an unknown subclass of Exception' raised by an external callee"""
+
+
 CHR_TABLE = [chr(i) for i in range(256)]
 
 
